@@ -401,8 +401,14 @@ def c11(ck):
        note="arguments include rejected ones (session id -2, 65536; W on an even function; system bytes of length 0..6); the item tree after "
             "FillVariables is compared with Items!Subst (ellipsis-free templates)")
 def c18(ck):
-    ck.rule.append("as C11; every producer call of the histories is judged field by field")
+    ck.rule.append("as C11; every producer call of the histories is judged field by field; fills through an ellipsis (counts and "
+                   "values for the generated names, also names with an index of their own) through a message against the same fill of the item")
     _history_checks(ck, "InvC18")
+    if ck.violations:
+        return
+    ck.trace("fillell", "fillell", ["-n", q(ck, 600, 6000)], "TraceItems", "TraceItems.cfg", ["InvC18e"],
+             nontrivial=lambda e: len(e.get("cnt", [])) > 0,
+             key=lambda e: json.dumps([e.get("tmpl", {}).get("abs"), e.get("cnt"), e.get("sigma")], sort_keys=True))
 
 
 # ---------------------------------------------------------------------------------------------- SML family
